@@ -170,6 +170,17 @@ fn new_impl(backend: &str, max_retry: i32, keep: bool) -> Impl {
         let content = format!("{}|{}|{}|{}|{:?}|{}", e.pid, e.tid, e.key, e.r#type, e.state, e.inputs);
         d.lock().unwrap().push((e.id.clone(), e.retry_times, stored, content));
     });
+    // a bystander channel whose key pattern selects no message of these runs: it must stay silent,
+    // also when unacknowledged messages are sent again
+    let bystander = sess.engine.channel_with_options(&acts::ChannelOptions {
+        id: "bystander".into(),
+        key: "no-such-key*".into(),
+        ..Default::default()
+    });
+    let d2 = deliveries.clone();
+    bystander.on_message(move |e| {
+        d2.lock().unwrap().push((format!("BYSTANDER:{}", e.id), e.retry_times, true, format!("{}|{}|{}|{}|{:?}", e.pid, e.tid, e.key, e.r#type, e.state)));
+    });
     for p in ["p1", "p2"] {
         let _ = sess.start("m9", &crate::checks::common::vars_of(&json!({"pid": p})));
     }
@@ -177,6 +188,9 @@ fn new_impl(backend: &str, max_retry: i32, keep: bool) -> Impl {
     let mut ids = BTreeMap::new();
     let mut tids = [String::new(), String::new()];
     for (id, _, _, content) in deliveries.lock().unwrap().iter() {
+        if id.starts_with("BYSTANDER:") {
+            continue;
+        }
         let p = if content.starts_with("p1|") { 0 } else { 1 };
         ids.insert(p, id.clone());
         tids[p] = content.split('|').nth(1).unwrap_or("").to_string();
@@ -216,6 +230,9 @@ fn apply(im: &mut Impl, op: &Op) {
     // learn the ids of first deliveries
     let d = im.deliveries.lock().unwrap().clone();
     for (id, retry, _, content) in d.iter() {
+        if id.starts_with("BYSTANDER:") {
+            continue;
+        }
         if *retry == 0 && !im.ids.values().any(|x| x == id) {
             let p = if content.starts_with("p1|") { 0 } else { 1 };
             let slot = if content.contains("Created") { p } else { 2 + p };
@@ -308,6 +325,13 @@ fn explore(backend: &'static str, max_retry: i32, depth: usize, keep: bool, shar
             let dl: Vec<(String, i32, bool, String)> = im.deliveries.lock().unwrap()[before..].to_vec();
             let mut got: Vec<(usize, i32)> = vec![];
             for (id, retry, stored, _content) in &dl {
+                if id.starts_with("BYSTANDER:") {
+                    viols.entry("delivered-to-non-matching-channel".into()).or_insert((
+                        format!("after {full:?}: the message {} (retry {retry}) was handed to a channel whose key pattern does not select it", &id[10..]),
+                        full.clone(),
+                    ));
+                    continue;
+                }
                 let slot = im.ids.iter().find(|(_, x)| *x == id).map(|(k, _)| *k).unwrap_or(99);
                 if *retry == 0 {
                     if !first.contains(&slot) {
